@@ -222,6 +222,8 @@ impl Scenario for Mirror {
         let prod_done = AtomicBool::new(false);
         let relay_done = AtomicBool::new(false);
 
+        let rebuild_check = self.property == "C06";
+        let rebuild_issue: Mutex<Option<String>> = Mutex::new(None);
         let mut bodies: Vec<Box<dyn FnOnce() + Send + '_>> = Vec::new();
         // thread 0: producer
         {
@@ -264,6 +266,8 @@ impl Scenario for Mirror {
             probe: crossbeam_channel::Probe<BddNode>,
             upstream_done: &'a AtomicBool,
             my_done: &'a AtomicBool,
+            rebuild_check: bool,
+            rebuild_issue: &'a Mutex<Option<String>>,
         ) -> Box<dyn FnOnce() + Send + 'a> {
             Box::new(move || {
                 struct Done<'a>(&'a AtomicBool);
@@ -306,6 +310,24 @@ impl Scenario for Mirror {
                         break;
                     }
                 }
+                if rebuild_check {
+                    // no further recv will be called: the documentation allows building on the
+                    // mirror now. Re-creating any node it holds must hand out the existing
+                    // handle (same handle <=> same function) and must not grow the table.
+                    let snapshot = bdd.nodes.clone();
+                    for (i, n) in snapshot.iter().enumerate().skip(2) {
+                        let t = bdd.node(n.var(), n.lo(), n.hi());
+                        if t != Term(i) || bdd.nodes.len() != snapshot.len() {
+                            *rebuild_issue.lock().unwrap() = Some(format!(
+                                "re-creating entry {i} ({n}) on the drained mirror returned handle {} and the table has {} entries instead of {}",
+                                t.value(),
+                                bdd.nodes.len(),
+                                snapshot.len()
+                            ));
+                            break;
+                        }
+                    }
+                }
             })
         }
         let dummy_done = AtomicBool::new(false);
@@ -319,6 +341,8 @@ impl Scenario for Mirror {
                 p1,
                 &prod_done,
                 &relay_done,
+                rebuild_check,
+                &rebuild_issue,
             ));
             let recv_bdd = Bdd::with_receiver(r2);
             bodies.push(poller(
@@ -329,6 +353,8 @@ impl Scenario for Mirror {
                 p2,
                 &relay_done,
                 &dummy_done,
+                rebuild_check,
+                &rebuild_issue,
             ));
         } else {
             drop(s2);
@@ -342,6 +368,8 @@ impl Scenario for Mirror {
                 p1,
                 &prod_done,
                 &dummy_done,
+                rebuild_check,
+                &rebuild_issue,
             ));
         }
 
@@ -493,6 +521,9 @@ impl Scenario for Mirror {
         }
         let _ = relay_final_len;
         if !c19 {
+            if let Some(m) = rebuild_issue.into_inner().unwrap() {
+                return mk(self.viol("canonical-mirror", "unique-table-incomplete", m), stats);
+            }
             if let Err((class, m)) = canon_check(final_nodes) {
                 return mk(self.viol("canonical-producer", &class, m), stats);
             }
